@@ -45,4 +45,5 @@ VARIANTS += [
     M('C14', 'seed-dropped-when-sampling-flag-is-off', E(RX, "        self.seed = seed\n", "        self.seed = seed if self.size.use_sampling else None\n"), rule='C14-SEEDFWD', key='self.seed'),
     M('C14', 'first-sample-seeded-with-a-constant', E(RX, "        prng_state = PRNGState(seed)   # the first sample is drawn here", "        prng_state = PRNGState(0)   # the first sample is drawn here"), rule='C14-SEEDFWD', key='PRNGState'),
     M('C14', 'refactor-seed-stored-before-first-sample', [E(RX, "        self.seed = seed\n", ""), E(RX, "        prng_state = PRNGState(seed)   # the first sample is drawn here", "        self.seed = seed\n        prng_state = PRNGState(self.seed)   # the first sample is drawn here")], kind='refactor'),
+    M('C14', 'pdextract-drops-the-seed', E(RX, "        return extract(strings, seed=seed)", "        return extract(strings)"), rule='C14-SEEDFWD', key='pdextract'),
 ]
